@@ -185,8 +185,8 @@ def check_malformed(case):
 
 
 ORACLES = [
-    Oracle("membership_shape_seed", stack_case(), check_membership, quick=250, thorough=1200),
-    Oracle("distribution", dist_case(), check_distribution, quick=40, thorough=200),
+    Oracle("membership_shape_seed", stack_case(), check_membership, quick=250, thorough=4000),
+    Oracle("distribution", dist_case(), check_distribution, quick=40, thorough=600),
     Oracle(
         "malformed_shapes",
         st.fixed_dictionaries(
